@@ -4,7 +4,7 @@
    unsolicited status lines; unsolicited error/alarm lines) and the reader callback, as a transition system whose runs are
    all interleavings of caller, sender thread, device and reader.
    PARTIAL: (1) steps are atomic (threading.Event / Queue semantics, the scheduler and timeouts are not modelled);
-   (2) synchrony is proved from a quiescent start and without unsolicited error lines; without quiescence it is FALSE
+   (2) synchrony is proved from a quiescent start with unsolicited error lines handled between statements only; without quiescence it is FALSE
    for the faithful model and for the code (C16_refuted_stale_ok = the recorded finding); (3) statements are abstract:
    the byte-level strip / encode('ascii') path is tied by the correspondence only (non-ASCII statements: recorded finding). *)
 From Coq Require Import ZArith Bool List.
@@ -24,11 +24,12 @@ Theorem C16_order_racy : forall (S : Type) stmts k ls s, rrun S ls (init S stmts
   received S s ++ queue S s = firstn (calls S s) stmts.
 Proof. exact order_racy. Qed.
 
-(* SYNCHRONY and DISCONNECT: from a quiescent start, for any acknowledgement latency, any unsolicited status lines and
-   error replies at any position: completed writes never outnumber handled terminators, and whenever no write() is in
+(* SYNCHRONY and DISCONNECT: from a quiescent start, for any acknowledgement latency, any unsolicited status lines, error
+   replies at any position and unsolicited error lines handled between statements (grun = every run in which the reader
+   handles an unsolicited error line only while no write() is waiting; C16_refuted_alarm_during_wait is the excluded case): completed writes never outnumber handled terminators, and whenever no write() is in
    progress everything written has been sent and acknowledged (nothing queued, nothing pending in the device, no
    terminator on its way) -- the state disconnect(wait=True) waits for *)
-Theorem C16_sync : forall (S : Type) stmts ls s, Forall no_alarm ls -> run S ls (init S stmts 0) = Some s ->
+Theorem C16_sync : forall (S : Type) stmts ls s, grun S ls (init S stmts 0) = Some s ->
   (length (outcomes S s) <= termd S s)%nat /\
   (ph S s = Idle -> termd S s = length (outcomes S s) /\ queue S s = [] /\ dev_pending S s = [] /\ nterm (from_dev S s) = 0%nat /\
                     length (received S s) = length (outcomes S s)).
@@ -36,7 +37,7 @@ Proof. exact sync. Qed.
 
 (* write() does not return before the device has acknowledged that very statement: at the moment it returns, the
    number of terminators handled (FIFO: with every line sent before them) is exactly the number of this statement *)
-Theorem C16_return_after_own_ack : forall (S : Type) stmts ls s s', Forall no_alarm ls -> run S ls (init S stmts 0) = Some s ->
+Theorem C16_return_after_own_ack : forall (S : Type) stmts ls s s', grun S ls (init S stmts 0) = Some s ->
   step S Return s = Some s' -> termd S s = Datatypes.S (length (outcomes S s)) /\ length (received S s) = Datatypes.S (length (outcomes S s)).
 Proof. exact return_after_own_ack. Qed.
 Print Assumptions C16_return_after_own_ack.
@@ -44,21 +45,21 @@ Print Assumptions C16_return_after_own_ack.
 (* READINGS: ... so a reading requested by the statement is available when write() returns: every line still on its
    way to the reader was emitted by the device after the terminator of this statement (the reader handles lines in order
    and parses a line before setting the acknowledgement) *)
-Theorem C16_readings_available : forall (S : Type) stmts ls s s', Forall no_alarm ls -> run S ls (init S stmts 0) = Some s ->
+Theorem C16_readings_available : forall (S : Type) stmts ls s s', grun S ls (init S stmts 0) = Some s ->
   step S Return s = Some s' -> Forall (fun k => (Datatypes.S (length (outcomes S s)) <= k)%nat) (stamps S s).
 Proof. exact readings_available. Qed.
 
 (* without quiescence, quantified: with k acknowledgements still on their way when the first write() starts (k = 1 is
    the recorded finding), completed writes still never outnumber handled acknowledgements, of which k belong to nobody:
    write number i may return once the acknowledgement of statement i - k is handled -- at most k statements early *)
-Theorem C16_sync_stale : forall (S : Type) stmts k ls s, Forall no_alarm ls -> run S ls (init S stmts k) = Some s ->
+Theorem C16_sync_stale : forall (S : Type) stmts k ls s, grun S ls (init S stmts k) = Some s ->
   (length (outcomes S s) <= termd S s)%nat /\
   (length (received S s) + k = length (dev_pending S s) + nterm (from_dev S s) + termd S s)%nat.
 Proof. exact sync_stale. Qed.
 
 (* ERRORS SURFACE: an error / alarm / !! line handled by the reader makes the next write() that completes raise *)
 Theorem C16_error_surfaces : forall (S : Type) s1 s2 rest ls s3 s4,
-  from_dev S s1 = LErr :: rest -> step S Read s1 = Some s2 ->
+  (from_dev S s1 = LErr :: rest \/ from_dev S s1 = LAlarm :: rest) -> step S Read s1 = Some s2 ->
   run S ls s2 = Some s3 -> ~ In Return ls -> step S Return s3 = Some s4 ->
   exists pre, outcomes S s4 = pre ++ [Raised].
 Proof. exact error_surfaces. Qed.
@@ -66,6 +67,11 @@ Theorem C16_raises_only_on_error : forall (S : Type) s s', step S Return s = Som
   exists pre, outcomes S s' = pre ++ [Returned].
 Proof. exact raises_only_on_error. Qed.
 Print Assumptions C16_error_surfaces.
+
+(* an unsolicited error line handled during a wait releases that write() early -- by design of the code *)
+Theorem C16_refuted_alarm_during_wait : exists s, run nat [CallWrite; Send; DevAlarm; Read; Return] (init nat [7%nat] 0) = Some s /\
+  outcomes nat s = [Raised] /\ termd nat s = 0%nat /\ dev_pending nat s = [7%nat].
+Proof. exact refuted_alarm_during_wait. Qed.
 
 (* without quiescence: one acknowledgement still on its way from the connection phase lets write() return before the
    device has even received the statement *)
